@@ -121,6 +121,20 @@ def history(M, rec, rng, g, desc):
         ok = guarded_step(rec, b, ic, CE(first_engine), kw, opts0, first_engine, ctx)
         return (eval_sym(b, first_engine, symvals) if ok else None), ic
 
+    # sometimes the objects already have a past (so leftovers of earlier steps would show)
+    if rng.random() < 0.6:
+        try:
+            _, vpre = g.values(desc, allow_inf=False)
+            pre = rng.choice(("numpy", "own", "sym"))
+            if pre == "numpy":
+                built.net.step(init_conditions=drive.np_init(built, vpre, "vec1"), engine=NE(), **drive.step_pars(g.pars()))
+            elif pre == "own":
+                built.net.step(engine=NE(var_type="rand"), **kw)
+            else:
+                built.net.step(engine=CE(rng.choice(("SX", "MX"))), **kw)
+            rec.count("histories_with_a_past")
+        except Exception as e:
+            rec.count("intermediate_raised")
     r1, ic1 = first_step(built)
     if r1 is None:
         return
